@@ -314,6 +314,11 @@ impl Gen {
       // capacities around page multiples, up to 3 pages + 1
       let ps = page_size() as u32;
       cfg.cap = r.pick(&[ps - 1, ps, ps + 1, 2 * ps - 1, 2 * ps, 2 * ps + 1, 3 * ps - 1, 3 * ps, 3 * ps + 1]);
+      // reserved prefixes around and beyond a page
+      if r.chance(30) {
+        cfg.reserved = r.pick(&[ps - 1, ps, ps + 3, ps + 904, 2 * ps, 2 * ps + 1]);
+        cfg.cap = cfg.prefix() + r.pick(&[64, 200, ps - 7, ps, ps + 9]);
+      }
     }
     if r.chance(2) {
       // degenerate capacities: construction errors
@@ -626,6 +631,16 @@ impl Gen {
     }
   }
 
+  /// argument of `increase_discarded`: mostly small, sometimes at and beyond the capacity and
+  /// around the 32-bit wrap
+  fn big_discard(&mut self) -> u64 {
+    if self.rng.chance(85) {
+      return self.rng.below(9);
+    }
+    let cap = self.ai().capacity as u64;
+    self.rng.pick(&[cap.saturating_sub(1), cap, cap + 1, 2 * cap, 1 << 31, u32::MAX as u64 - 16, u32::MAX as u64])
+  }
+
   fn gen_rd(&mut self) {
     if self.rng.chance(35) {
       let ty = self.rng.pick(&VARS);
@@ -652,7 +667,7 @@ impl Gen {
         self.emit(format!("set_minseg {n}"));
       }
       2 => {
-        let n = self.rng.below(9);
+        let n = self.big_discard();
         self.emit(format!("inc_discarded {n}"));
       }
       3 if ai.arenas.len() < 4 => {
@@ -675,7 +690,10 @@ impl Gen {
           self.emit(format!("drop_arena {c}"));
         }
       }
-      5 => drop(self.emit("slices".to_string())),
+      5 => {
+        let op = self.rng.pick(&["slices", "rres"]);
+        self.emit(op.to_string());
+      }
       6 => drop(self.emit("info".to_string())),
       7 => {
         let b = self.rng.below(256);
@@ -778,20 +796,31 @@ impl Gen {
       2 => {
         let ty = self.rng.pick(&VARS);
         let v = self.int_val(ty, true);
-        self.emit(format!("put_var {id} {ty} {v}"));
+        // the panicking twin where it cannot panic, or where a panic is allowed
+        let op = if (allow_panic || room >= 19) && self.rng.chance(25) { "put_varu" } else { "put_var" };
+        self.emit(format!("{op} {id} {ty} {v}"));
       }
       3 => {
         let ty = self.rng.pick(&VARS);
-        self.emit(format!("get_var {id} {ty}"));
+        let op = if allow_panic && self.rng.chance(20) { "get_varu" } else { "get_var" };
+        self.emit(format!("{op} {id} {ty}"));
       }
       4 => {
         // varint round trip on an emptied buffer (possibly decoded as another type)
         let ty = self.rng.pick(&VARS);
         let v = self.int_val(ty, true);
-        self.emit(format!("set_len {id} 0"));
-        self.emit(format!("put_var {id} {ty} {v}"));
+        // sometimes after other bytes, so that the put does not start at the beginning of the buffer
+        let unchecked = (allow_panic || cap >= 27) && self.rng.chance(30);
+        if unchecked && self.rng.chance(50) && cap >= 8 {
+          let l = self.rng.range(1, 8);
+          self.emit(format!("set_len {id} {l}"));
+        } else {
+          self.emit(format!("set_len {id} 0"));
+        }
+        let (p, g) = if unchecked { ("put_varu", "get_var") } else { ("put_var", "get_var") };
+        self.emit(format!("{p} {id} {ty} {v}"));
         let ty2 = if self.rng.chance(75) { ty } else { self.rng.pick(&VARS) };
-        self.emit(format!("get_var {id} {ty2}"));
+        self.emit(format!("{g} {id} {ty2}"));
       }
       5 => {
         let rnd = self.rng.range(0, room);
@@ -973,7 +1002,16 @@ impl Gen {
     let c = [0, 1, d.saturating_sub(1), d, al.saturating_sub(1), al, al + 1, cap.saturating_sub(1), cap, cap + 1,
       2 * cap, 4 * cap, self.rng.range(0, 4 * cap), self.rng.range(al, 2 * cap.max(al))];
     let n = self.rng.pick(&c);
+    // the user's reserved bytes move with the memory
+    let mark = self.rng.chance(50);
+    if mark {
+      let b = self.rng.range(1, 255);
+      self.emit(format!("wres {b}"));
+    }
     self.emit(format!("truncate {n}"));
+    if mark || self.rng.chance(30) {
+      self.emit("rres".to_string());
+    }
     // allocations that just fit / just do not fit the new capacity
     let rem = self.ai().remaining as u64;
     for _ in 0..self.rng.range(1, 3) {
@@ -1192,7 +1230,7 @@ impl Gen {
           self.emit(format!("set_minseg {n}"));
         }
         _ => {
-          let n = self.rng.below(9);
+          let n = self.big_discard();
           self.emit(format!("inc_discarded {n}"));
         }
       }
